@@ -479,6 +479,36 @@ def main(ctx):
                {"src": "var o = {get g(){ return 1; }, d: 2}; o", "want": ["m", [["d", ["i", "2"]]]]},
                {"src": "var a = [1]; a.extra = 5; a", "want": ["l", [["i", "1"]]]},
                {"src": "Object.create({inherited: 1})", "want": ["m", []]}]
+    # "plain objects to dicts of own DATA properties": every way a name can be (or stop being, or become again) a data property
+    def penc(v):
+        if v is None:
+            return ["N"]
+        if isinstance(v, bool):
+            return ["b", v]
+        if isinstance(v, int):
+            return ["i", str(v)]
+        if isinstance(v, float):
+            return pyenc(v)
+        if isinstance(v, str):
+            return ["s", v]
+        if isinstance(v, list):
+            return ["l", [penc(x) for x in v]]
+        return ["m", [[k, penc(x)] for k, x in v.items()]]
+    DATA_CASES = [
+        ("({a: 1, b: 2, set a(v) {}})", {"b": 2}), ("({a: 1, b: 2, get a() { return 5; }})", {"b": 2}), ("({get a() { return 1; }, a: 2, b: 3})", {"a": 2, "b": 3}), ("({set a(v) {}, a: 2})", {"a": 2}),
+        ("var o = {k: 1, n: 'x'}; Object.defineProperty(o, 'k', {set: function (v) {}}); o", {"n": "x"}), ("var o = {k: 1, n: 'x'}; Object.defineProperty(o, 'k', {get: function () { return 2; }}); o", {"n": "x"}),
+        ("var o = {k: 1, n: 'x'}; Object.defineProperty(o, 'k', {get: function () { return 2; }, set: function (v) {}}); o", {"n": "x"}),
+        ("var o = {k: 1}; Object.defineProperty(o, 'k', {set: function (v) {}}); Object.defineProperty(o, 'k', {value: 7}); o", {"k": 7}),
+        ("var o = {get k() { return 1; }}; Object.defineProperty(o, 'k', {value: 7, writable: true}); o.k = 8; o", {"k": 8}), ("var o = {k: 1}; delete o.k; o", {}), ("var o = {k: 1}; delete o.k; o.k = 2; o", {"k": 2}),
+        ("var o = {set k(v) { this.stored = v; }}; o.k = 5; o", {"stored": 5}), ("var o = {a: 1}; Object.defineProperty(o, 'a', {set: function (v) {}}); [o.a === undefined, Object.keys(o).length, o]", [True, 1, {}]),
+        ("var p = {get a() { return 1; }, a: 2}; [p.a, p]", [2, {"a": 2}]), ("[{get x() { return 1; }, y: [{set z(v) {}, w: 1}]}]", [{"y": [{"w": 1}]}]),
+        ("var o = Object.create({}, {d: {value: 1, enumerable: true}, g: {get: function () { return 2; }, enumerable: true}}); o", {"d": 1}),
+        ("var o = {}; Object.defineProperties(o, {d: {value: [1], enumerable: true}, s: {set: function (v) {}, enumerable: true}}); o", {"d": [1]}),
+        ("var o = Object.assign({a: 1}, {get a() { return 9; }}); o", {"a": 9}), ("var o = Object.assign({get a() { return 9; }, set a(v) {}}, {a: 1}); o", {}),
+        ("var o = {a: 1, b: {set a(v) {}, a: 3}}; o", {"a": 1, "b": {"a": 3}}),
+    ]
+    for src, val in DATA_CASES:
+        scases.append({"src": src, "want": penc(val)})
     # argument vectors
     acases = []
     for i in range(300 if ctx.quick else 5000):
